@@ -37,6 +37,42 @@ Proof.
 Qed.
 Print Assumptions C19_stop_flushes.
 
+(* graceful stop by the limiter (stopLimitStoreWithRetry: Stop() retried after a failure, bound 10),
+   from every reachable store state, with every pending set and every fault plan: a success means every
+   condition the store holds is in the API, and the limiter only gives up after exactly ten failed
+   attempts — so with fewer than ten failing flushes everything pending is persisted *)
+Theorem C19_graceful_stop_survives_transient_failures : forall n lk owner s0 ops ords pl s' rs,
+  Inv n owner s0 -> Forall (wf_op owner) ops ->
+  let s := run_state n lk s0 ops in
+  dead (sto s) = false -> stopped (sto s) = false ->
+  (step n lk s (OGStop ords pl) = (s', (ROk, rs)) ->
+   forall k b, alookup key_eqb k (loc (sto s)) = Some b ->
+               exists it, alookup String.eqb (snd k) (api s') = Some it /\ content_eqb it b = true)
+  /\ (step n lk s (OGStop ords pl) = (s', (RErr, rs)) ->
+      gstop_attempts 10 n lk (shard (sto s)) (wt (sto s)) ords (mkW (api s) (loc (sto s)) pl) = 10%nat).
+Proof.
+  intros n lk owner s0 ops ords pl s' rs HI Hwf s Hd Hst. split.
+  - intros H. eapply graceful_stop_survives; [apply Inv_run; eassumption|exact Hst|exact H].
+  - intros H. eapply graceful_stop_gives_up_late; eassumption.
+Qed.
+Print Assumptions C19_graceful_stop_survives_transient_failures.
+
+(* non-vacuity: periodic mode, three pending conditions, two failing flush attempts (a transient error,
+   then five conflicts in a row), the third attempt succeeds; the next holder loads all three *)
+Example C19_graceful_stop_nonvacuous :
+  let lk := mkLocks true true in
+  let ops := [ORestart 0 false;
+              OFg (FSave ("a.g1", mkBody "a" 1 1 1)) []; OFg (FSave ("a.g2", mkBody "a" 2 2 2)) [];
+              OFg (FSave ("b.g1", mkBody "b" 3 3 3)) []]%string in
+  let s := run_state 1 lk (init []) ops in
+  let ord := [("a", "a.g1"); ("a", "a.g2"); ("b", "b.g1")]%string in
+  let pl := [("a.g2", [OTransient; OConflict; OOk; OConflict; OOk; OConflict; OOk; OConflict; OOk; OConflict; OOk])]%string in
+  api s = [] /\ snd (step 1 lk s (OGStop [ord; ord; ord] pl)) = (ROk, [])
+  /\ gstop_attempts 10 1 lk 0 false [ord; ord; ord] (mkW (api s) (loc (sto s)) pl) = 3%nat
+  /\ map fst (loc (sto (run_state 1 lk (fst (step 1 lk s (OGStop [ord; ord; ord] pl))) [ORestart 0 true; OLoad OOk])))
+     = ord.
+Proof. vm_compute. repeat split; reflexivity. Qed.
+
 (* whatever state the previous holder left behind (any prefix, any crash point): a new store for
    shard sh that loads holds exactly the persisted conditions of shard sh, as persisted *)
 Theorem C19_load_exact : forall n lk s sh w,
